@@ -140,3 +140,98 @@ def run_case(cid, case):
         rec["exc"] = type(e).__name__
         rec["msg"] = str(e)[:120]
     return rec
+
+
+# ----------------------------------------------------------------------------------------------
+# C08: universe generated from the class model exported by TLC (spec/TypeFollow.tla Universe)
+def _ty_src(t):
+    if t["k"] == "tv":
+        return t["s"]
+    if t["k"] == "ty":
+        if t["a"]:
+            return t["s"] + "[" + ", ".join(_ty_src(a) for a in t["a"]) + "]"
+        return t["s"]
+    raise ValueError(t["k"])
+
+
+def universe_source(classes):
+    tvars = sorted({p for c in classes for p in c["params"]})
+    lines = ["from typing import Any, Generic, Iterable, TypeVar",
+             "from func_adl import register_func_adl_os_collection",
+             "from func_adl.type_based_replacement import ObjectStreamInternalMethods", ""]
+    for v in tvars + ["CT"]:
+        lines.append(f'{v} = TypeVar("{v}")')
+    lines.append("")
+    for c in classes:
+        if c["base"]["k"] != "noann":
+            base = _ty_src(c["base"])
+        elif c["params"]:
+            base = "Generic[" + ", ".join(c["params"]) + "]"
+        else:
+            base = ""
+        lines.append(f"class {c['name']}" + (f"({base})" if base else "") + ":")
+        if not c["methods"]:
+            lines.append("    pass")
+        for m in c["methods"]:
+            ann = "" if m["ret"]["k"] == "noann" else " -> " + _ty_src(m["ret"])
+            lines.append(f"    def {m['name']}(self){ann}: ...")
+        lines.append("")
+    lines += ["@register_func_adl_os_collection",
+              "class MyColl(ObjectStreamInternalMethods[CT]):",
+              "    def Second(self) -> CT: ...",
+              "    def Size2(self) -> int: ...", ""]
+    return "\n".join(lines)
+
+
+def type_term(t):
+    """Python type object -> type term of spec/TypeFollow.tla"""
+    import dataclasses
+    import typing
+    from typing import Any
+
+    def Ty(nm, args=()):
+        return codec.T("ty", s=nm, a=list(args))
+    if t is Any:
+        return Ty("Any")
+    if isinstance(t, typing.TypeVar):
+        return codec.T("tv", s=t.__name__)
+    o = typing.get_origin(t)
+    if o is not None:
+        nm = getattr(o, "__name__", str(o))
+        if nm == "Iterable" or o is typing.Iterable or str(o) == "<class 'collections.abc.Iterable'>":
+            nm = "Iterable"
+        return Ty(nm, [type_term(a) for a in typing.get_args(t)])
+    if isinstance(t, type):
+        if dataclasses.is_dataclass(t) and t.__name__ == "dict_dataclass":
+            hints = typing.get_type_hints(t)
+            return codec.T("rec", p=list(hints.keys()), a=[type_term(v) for v in hints.values()])
+        return Ty(t.__name__)
+    return Ty("?" + str(t))
+
+
+def run_types_case(cid, ops, ns):
+    logging.disable(logging.WARNING)
+    from func_adl import EventDataset
+
+    class DS(EventDataset):
+        def __init__(self):
+            super().__init__(ns["Evt"])
+
+        async def execute_result_async(self, a, title=None):
+            return 0
+
+    rec = {"id": cid, "kind": "types", "ops": [{"op": o["op"], "lam": o["lam"]} for o in ops], "obs": [],
+           "source": "ds"}
+    s = DS()
+    for o in ops:
+        text = codec.src(o["lam"])
+        rec["source"] += f".{o['op']}({text})"
+        try:
+            s = getattr(s, o["op"])(text)
+            rec["obs"].append({"res": "ok", "ty": type_term(s.item_type)})
+        except Exception as e:
+            rec["obs"].append({"res": type(e).__name__, "ty": codec.T("ty", s="Any"), "msg": str(e)[:100]})
+            break
+    while len(rec["obs"]) < len(ops):
+        rec["obs"].append({"res": "not-run", "ty": codec.T("ty", s="Any")})
+    return rec
